@@ -3,6 +3,7 @@ from typing import Optional, Generator
 
 from dliswriter.logical_record.core.logical_record.segment_attributes import SegmentAttributes
 from dliswriter.utils.internal.internal_enums import RepresentationCode as RepC
+from dliswriter.utils.internal import verif_hooks as _verif
 
 
 logger = logging.getLogger(__name__)
@@ -106,6 +107,9 @@ class LogicalRecordBytes:
         Yields:
             bytes   :   Bytes of a logical record segment, including an added header.
         """
+
+        if _verif.ENABLED:  # lr-tap (verification only): report the record at the moment its segmentation starts
+            _verif.emit('lr', is_eflr=self._is_eflr, lr_type=self._lr_type_struct, body=self._bts, cap=max_n_bytes)
 
         start_pos = 0  # start from the beginning of the logical record bytes
         remaining_size = self._size  # all bytes will be processed; self._size is assumed to always be >=12
